@@ -13,7 +13,6 @@ import (
 	"log"
 	"os"
 	"path/filepath"
-	"regexp"
 	"runtime"
 	"runtime/pprof"
 	"strings"
@@ -470,11 +469,10 @@ func (p *program) assignCheckerParams() error {
 	return nil
 }
 
-var generatedFileCommentRE = regexp.MustCompile("Code generated .* DO NOT EDIT.")
-
+// isGenerated reports whether f is a generated file according to
+// the convention described in https://go.dev/s/generatedcode.
 func (p *program) isGenerated(f *ast.File) bool {
-	return len(f.Comments) != 0 &&
-		generatedFileCommentRE.MatchString(f.Comments[0].Text())
+	return ast.IsGenerated(f)
 }
 
 func (p *program) getFilename(f *ast.File) string {
